@@ -1,7 +1,249 @@
 package c06
 
-import "verif/harness/hx"
+// Cross-check through a real ledger (ledgerkit solo chain): the same kinds of calls as signed
+// transactions, one per block, executed by the block executor (NeoVM entry script ->
+// Ontology.Native.Invoke -> the token contract; witnesses = the transaction's signature
+// addresses; calling contract = the address of the invocation script).  Storage is read through
+// the state store (hook VerifStateOverlay) and decoded exactly as in direct mode; the outcome
+// observed is success / failure of the transaction.
 
-func runLedger(c *hx.Ctx, n int) {}
+import (
+	"fmt"
+	"math/big"
+	"path/filepath"
+	"strings"
+
+	"github.com/laizy/bigint"
+	"github.com/ontio/ontology/account"
+	"github.com/ontio/ontology/common"
+	"github.com/ontio/ontology/common/config"
+	"github.com/ontio/ontology/core/payload"
+	"github.com/ontio/ontology/core/states"
+	"github.com/ontio/ontology/core/types"
+	"github.com/ontio/ontology/smartcontract/event"
+	"github.com/ontio/ontology/smartcontract/service/native/ont"
+
+	"verif/harness/hx"
+	"verif/harness/ledgerkit"
+)
+
+func ntb(v *big.Int) states.NativeTokenBalance {
+	return states.NativeTokenBalance{Balance: bigint.New(v)}
+}
+
+// ledgerParams builds the parameter list cmd/utils builds for the same call.
+func ledgerParams(k *jCall) (method string, params []interface{}) {
+	switch k.Kind {
+	case "transfer":
+		if k.V2 {
+			var sts []*ont.TransferStateV2
+			for _, s := range k.States {
+				sts = append(sts, &ont.TransferStateV2{From: addrOf(s.From), To: addrOf(s.To), Value: ntb(bigOf(s.Value))})
+			}
+			return "transferV2", []interface{}{sts}
+		}
+		var sts []*ont.TransferState
+		for _, s := range k.States {
+			sts = append(sts, &ont.TransferState{From: addrOf(s.From), To: addrOf(s.To), Value: bigOf(s.Value).Uint64()})
+		}
+		return "transfer", []interface{}{sts}
+	case "approve":
+		if k.V2 {
+			return "approveV2", []interface{}{&ont.TransferStateV2{From: addrOf(k.From), To: addrOf(k.To), Value: ntb(bigOf(k.Value))}}
+		}
+		return "approve", []interface{}{&ont.TransferState{From: addrOf(k.From), To: addrOf(k.To), Value: bigOf(k.Value).Uint64()}}
+	default:
+		if k.V2 {
+			return "transferFromV2", []interface{}{&ont.TransferFromStateV2{Sender: addrOf(k.Sender),
+				TransferStateV2: ont.TransferStateV2{From: addrOf(k.From), To: addrOf(k.To), Value: ntb(bigOf(k.Value))}}}
+		}
+		return "transferFrom", []interface{}{ont.NewTransferFromState(addrOf(k.Sender), addrOf(k.From), addrOf(k.To), bigOf(k.Value).Uint64())}
+	}
+}
+
+// sane makes an amount one the client-side builders can carry (no decode errors in this mode).
+func sane(v2 bool, s string) string {
+	v := bigOf(s)
+	if v.Sign() < 0 || (!v2 && v.Cmp(two64) >= 0) {
+		return "1"
+	}
+	return s
+}
+
+type lworld struct {
+	c    *hx.Ctx
+	k    *ledgerkit.Kit
+	keys map[common.Address]*account.Account
+}
+
+func (l *lworld) world() *world {
+	return &world{c: l.c, overlay: l.k.Store().VerifStateOverlay()}
+}
+
+// exec adds one block holding the call as a transaction signed by k.Signers; fills in the
+// context the chain gave it (time, height, calling script address).
+func (l *lworld) exec(k *jCall) (ok bool, err error) {
+	method, params := ledgerParams(k)
+	mtx, err := l.k.NativeTx(contractOf(k.Tok), 0, 0, 20000000, method, params)
+	if err != nil {
+		return false, err
+	}
+	for _, s := range k.Signers {
+		if err := ledgerkit.Sign(mtx, l.keys[addrOf(s)]); err != nil {
+			return false, err
+		}
+	}
+	tx, err := mtx.IntoImmutable()
+	if err != nil {
+		return false, err
+	}
+	k.Caller = hexOf(common.AddressFromVmCode(tx.Payload.(*payload.InvokeCode).Code))
+	b, err := l.k.MakeBlock([]*types.Transaction{tx})
+	if err != nil {
+		return false, err
+	}
+	k.Time, k.Height = b.Header.Timestamp, b.Header.Height
+	res, err := l.k.Ledger.ExecuteBlock(b)
+	if err != nil {
+		return false, err
+	}
+	if err := l.k.Ledger.AddBlock(b, nil, res.MerkleRoot); err != nil {
+		return false, err
+	}
+	l.c.Eval()
+	if len(res.Notify) != 1 {
+		return false, fmt.Errorf("expected one execution record, got %d", len(res.Notify))
+	}
+	return res.Notify[0].State == event.CONTRACT_STATE_SUCCESS, nil
+}
+
+func runLedger(c *hx.Ctx, n int) {
+	oldNet := config.DefConfig.P2PNode.NetworkId
+	defer func() { config.DefConfig.P2PNode.NetworkId = oldNet }()
+	kit, err := ledgerkit.New(filepath.Join(c.OutDir, "c06-ledger"))
+	if err != nil {
+		c.Fail("ledger-setup", "solo chain could not be created", nil, err.Error(), nil)
+		return
+	}
+	defer kit.Close()
+	l := &lworld{c: c, k: kit, keys: map[common.Address]*account.Account{kit.Acct.Address: kit.Acct}}
+	g := &sgen{c: c, net: config.NETWORK_ID_SOLO_NET, users: 4}
+	g.accts = append(g.accts, kit.Acct.Address)
+	for i := 0; i < 3; i++ {
+		a := account.NewAccount("")
+		l.keys[a.Address] = a
+		g.accts = append(g.accts, a.Address)
+	}
+	g.accts = append(g.accts, govC, ontC)
+	// funding: the bookkeeper holds both supplies
+	bk := hexOf(kit.Acct.Address)
+	fund := func(tok string, to common.Address, v *big.Int) {
+		k := &jCall{Tok: tok, Kind: "transfer", V2: true, Signers: []string{bk}, States: []jTS{{bk, hexOf(to), v.String()}}}
+		if ok, err := l.exec(k); err != nil || !ok {
+			c.Fail("ledger-setup", "funding transfer failed", k, fmt.Sprint(ok, err), nil)
+		}
+	}
+	for _, a := range g.accts[1:] {
+		fund("ONT", a, new(big.Int).Add(new(big.Int).Mul(big.NewInt(int64(10+c.Intn(1000))), scale), big.NewInt(int64(c.Intn(2)*c.Intn(1000000000)))))
+		fund("ONG", a, new(big.Int).Add(new(big.Int).Mul(big.NewInt(int64(10+c.Intn(1000))), scale), big.NewInt(int64(c.Intn(1000000000)))))
+	}
+	for s := 0; s < n; s++ {
+		seq := &jSeq{Mode: "ledger", Net: config.NETWORK_ID_SOLO_NET}
+		before, err := l.world().dump()
+		if err != nil {
+			c.Fail("store-undecodable", "stored records decode", nil, err.Error(), nil)
+			return
+		}
+		d0 := before
+		seq.Init = stateOfDump(d0)
+		var steps []string
+		now := uint32(0)
+		nCalls := 8 + c.Intn(5)
+		okCalls := 0
+		for i := 0; i < nCalls; i++ {
+			k := g.next(before, &now, true)
+			k.PreExec, k.Caller = false, ""
+			for j := range k.States {
+				k.States[j].Value = sane(k.V2, k.States[j].Value)
+			}
+			if k.Kind != "transfer" {
+				k.Value = sane(k.V2, k.Value)
+			}
+			// only accounts we hold keys for can sign
+			var sg []string
+			for _, x := range k.Signers {
+				if _, ok := l.keys[addrOf(x)]; ok {
+					sg = append(sg, x)
+				}
+			}
+			// mostly let the debited side (or the spender) sign, so that enough transactions succeed
+			must := []string{k.From}
+			if k.Kind == "transferFrom" {
+				must = []string{k.Sender}
+			}
+			for _, st := range k.States {
+				must = append(must, st.From)
+			}
+			for _, x := range must {
+				if x == "" || c.Intn(5) == 0 {
+					continue
+				}
+				if _, ok := l.keys[addrOf(x)]; ok && !strings.Contains(strings.Join(sg, ","), x) {
+					sg = append(sg, x)
+				}
+			}
+			if len(sg) == 0 {
+				sg = []string{hexOf(g.accts[1+c.Intn(3)])}
+			}
+			k.Signers = sg
+			rawBefore := l.world().raw()
+			ok, err := l.exec(&k)
+			if err != nil {
+				c.Fail("ledger-exec", "block with the transaction could not be executed/added", k, err.Error(), nil)
+				return
+			}
+			seq.Calls = append(seq.Calls, k)
+			w := l.world()
+			after, derr := w.dump()
+			if derr != nil {
+				c.Fail("store-undecodable", "stored records decode", seq, derr.Error(), nil)
+				return
+			}
+			term, class := "RSucc", "ledger-ok"
+			if !ok {
+				term, class = "RFail", "ledger-failed"
+			} else {
+				okCalls++
+			}
+			method, _ := ledgerParams(&k)
+			c.Count(fmt.Sprintf("ledger-op:%s.%s", k.Tok, method))
+			c.Count("outcome:" + class)
+			checkStep(c, seq, i, &seq.Calls[i], !ok, before, after, sameRaw(rawBefore, w.raw()), class)
+			steps = append(steps, fmt.Sprintf("Step %s %s %s", coqCall(seq.Net, &seq.Calls[i]), term, coqDelta(before, after)))
+			before = after
+		}
+		c.Count("mode:ledger")
+		if okCalls >= 2 {
+			c.Nontrivial(fmt.Sprintf("ledger-%d-%d-%s", c.Seed, s, seq.Calls[0].Caller))
+		}
+		c.Case(fmt.Sprintf("CSeq %d %s %s %s", seq.Net, coqState(d0), "["+strings.Join(steps, ";\n   ")+"]", coqState(before)), seq)
+	}
+}
+
+func stateOfDump(d *dump) jState {
+	st := jState{Bal: map[string][]jBal{}, Allow: map[string][]jAllow{}}
+	for _, tok := range []string{"ONT", "ONG"} {
+		for _, e := range d.Bal[tok] {
+			st.Bal[tok] = append(st.Bal[tok], jBal{hexOf(e.A), e.V.String()})
+		}
+		for _, e := range d.Allow[tok] {
+			st.Allow[tok] = append(st.Allow[tok], jAllow{hexOf(e.O), hexOf(e.S), e.V.String()})
+		}
+	}
+	for _, e := range d.Offs {
+		st.Offs = append(st.Offs, jBal{hexOf(e.A), e.V.String()})
+	}
+	return st
+}
 
 func probes(c *hx.Ctx) {}
